@@ -10,7 +10,8 @@
  *                        closes (act 1) or closes and destroys (act 2) window tgt, once
  *   RA id n <act>*n      calls window id's expose handler makes into the window layer after
  *                        drawing, every time it runs: ea w | ex w t l h c | sh w | hi w |
- *                        ra w | rf w | lo w | lb w
+ *                        ra w | rf w | lo w | lb w | xc w (close) | xd w (close and destroy)
+ *   FA / GA id n <act>*n the same for the focus / geomchange handlers
  * Observation: one record per F / TF / K / MS op (see print_* below).
  *
  * src/window.c is #included so that the harness can print the internal focus links; every
@@ -186,7 +187,8 @@ typedef struct {
   int claim;
   int nprog; Dop prog[MAXOPS];
   int mu_cls, mu_act, mu_tgt, mu_armed;
-  int nact; struct { char k[3]; int w, t, l, h, c; } act[16];   /* calls made from inside the expose handler */
+  /* calls made from inside the expose (0), focus (1) and geomchange (2) handlers */
+  int nact[4]; struct { char k[3]; int w, t, l, h, c; } act[4][16];   /* 0 expose, 1 focus IN about itself, 2 geomchange, 3 focus IN about a child */
 } HW;
 static HW hw[MAXW];
 static int order[MAXW * 4], norder;  /* creation order */
@@ -234,6 +236,31 @@ static int app_at(int id, int l, int c)
 
 static void do_mutation(HW *h, int cls);
 
+static void do_close(int id);
+static void run_actions(HW *h, int kind)
+{
+  for(int k = 0; k < h->nact[kind]; k++) {
+    int w = h->act[kind][k].w;
+    if(w < 0 || w >= MAXW || !hw[w].win || hw[w].dead) continue;
+    TickitWindow *tw = hw[w].win;
+    const char *a = h->act[kind][k].k;
+    if(!strcmp(a, "ea")) tickit_window_expose(tw, NULL);
+    else if(!strcmp(a, "ex")) { TickitRect er = { .top = h->act[kind][k].t, .left = h->act[kind][k].l, .lines = h->act[kind][k].h, .cols = h->act[kind][k].c };
+                                tickit_window_expose(tw, &er); }
+    else if(!strcmp(a, "sh")) tickit_window_show(tw);
+    else if(!strcmp(a, "hi")) tickit_window_hide(tw);
+    else if(!strcmp(a, "ra")) tickit_window_raise(tw);
+    else if(!strcmp(a, "rf")) tickit_window_raise_to_front(tw);
+    else if(!strcmp(a, "lo")) tickit_window_lower(tw);
+    else if(!strcmp(a, "lb")) tickit_window_lower_to_back(tw);
+    else if(w > 0 && (!strcmp(a, "xc") || !strcmp(a, "xd"))) {
+      /* close; xd: and drop both references, so that the window is destroyed */
+      do_close(w);
+      if(a[1] == 'd') { hw[w].win = NULL; tickit_window_unref(tw); tickit_window_unref(tw); }
+    }
+  }
+}
+
 static int on_expose(TickitWindow *win, TickitEventFlags flags, void *_info, void *data)
 {
   if(!(flags & TICKIT_EV_FIRE)) return 0;
@@ -274,21 +301,7 @@ static int on_expose(TickitWindow *win, TickitEventFlags flags, void *_info, voi
       case 'k': tickit_renderbuffer_clear(rb); break;
     }
   }
-  for(int k = 0; k < h->nact; k++) {
-    int w = h->act[k].w;
-    if(w < 0 || w >= MAXW || !hw[w].win || hw[w].dead) continue;
-    TickitWindow *tw = hw[w].win;
-    const char *a = h->act[k].k;
-    if(!strcmp(a, "ea")) tickit_window_expose(tw, NULL);
-    else if(!strcmp(a, "ex")) { TickitRect er = { .top = h->act[k].t, .left = h->act[k].l, .lines = h->act[k].h, .cols = h->act[k].c };
-                                tickit_window_expose(tw, &er); }
-    else if(!strcmp(a, "sh")) tickit_window_show(tw);
-    else if(!strcmp(a, "hi")) tickit_window_hide(tw);
-    else if(!strcmp(a, "ra")) tickit_window_raise(tw);
-    else if(!strcmp(a, "rf")) tickit_window_raise_to_front(tw);
-    else if(!strcmp(a, "lo")) tickit_window_lower(tw);
-    else if(!strcmp(a, "lb")) tickit_window_lower_to_back(tw);
-  }
+  run_actions(h, 0);
   return 1;
 }
 
@@ -297,7 +310,15 @@ static int on_focus(TickitWindow *win, TickitEventFlags flags, void *_info, void
   if(!(flags & TICKIT_EV_FIRE)) return 0;
   HW *h = data; int id = (int)(h - hw);
   TickitFocusEventInfo *info = _info;
-  LOGF(flog, flen, "%s%d%c%d", flen ? ";" : "", id, info->type == TICKIT_FOCUSEV_IN ? '+' : '-', id_of(info->win));
+  LOGF(flog, flen, "%s%d%c%d", flen ? ";" : "", id, info->type == TICKIT_FOCUSEV_IN ? '+' : '-', info->win == win ? id : id_of(info->win));
+  if(info->type == TICKIT_FOCUSEV_IN) run_actions(h, info->win == win ? 1 : 3);
+  return 1;
+}
+
+static int on_geom(TickitWindow *win, TickitEventFlags flags, void *_info, void *data)
+{
+  if(!(flags & TICKIT_EV_FIRE)) return 0;
+  run_actions((HW *)data, 2);
   return 1;
 }
 
@@ -368,6 +389,7 @@ static void bind_all(int id)
   TickitWindow *w = hw[id].win;
   tickit_window_bind_event(w, TICKIT_WINDOW_ON_EXPOSE, 0, &on_expose, &hw[id]);
   tickit_window_bind_event(w, TICKIT_WINDOW_ON_FOCUS, 0, &on_focus, &hw[id]);
+  tickit_window_bind_event(w, TICKIT_WINDOW_ON_GEOMCHANGE, 0, &on_geom, &hw[id]);
   tickit_window_bind_event(w, TICKIT_WINDOW_ON_KEY, 0, &on_key, &hw[id]);
   tickit_window_bind_event(w, TICKIT_WINDOW_ON_MOUSE, 0, &on_mouse, &hw[id]);
 }
@@ -456,6 +478,8 @@ static void add_scroll(int id, TickitRect rc, int d, int r)
 
 static void geom_exposes(int id, TickitRect old, int ex)
 {
+  /* a geomchange handler may have closed or destroyed the window */
+  if(!hw[id].win || hw[id].dead) return;
   TickitWindow *p = tickit_window_parent(hw[id].win);
   if(ex && p) {
     TickitRect now = tickit_window_get_geometry(hw[id].win);
@@ -514,17 +538,19 @@ static int run_case(void)
       }
       continue;
     }
-    if(!strcmp(o, "RA")) {
+    if(!strcmp(o, "RA") || !strcmp(o, "FA") || !strcmp(o, "GA") || !strcmp(o, "FC")) {
+      int kind = o[0] == 'R' ? 0 : o[0] == 'G' ? 2 : o[1] == 'A' ? 1 : 3;
       int id = A(1), n = A(2); i += 3;
       HW *h = (id >= 0 && id < MAXW) ? &hw[id] : NULL;
       for(int k = 0; k < n && i < vh_ntok; k++) {
         const char *a = vh_tok[i];
         int isx = !strcmp(a, "ex");
-        if(h && h->nact < 16) {
-          strncpy(h->act[h->nact].k, a, 2); h->act[h->nact].k[2] = 0;
-          h->act[h->nact].w = A(1);
-          if(isx) { h->act[h->nact].t = A(2); h->act[h->nact].l = A(3); h->act[h->nact].h = A(4); h->act[h->nact].c = A(5); }
-          h->nact++;
+        if(h && h->nact[kind] < 16) {
+          int m = h->nact[kind];
+          strncpy(h->act[kind][m].k, a, 2); h->act[kind][m].k[2] = 0;
+          h->act[kind][m].w = A(1);
+          if(isx) { h->act[kind][m].t = A(2); h->act[kind][m].l = A(3); h->act[kind][m].h = A(4); h->act[kind][m].c = A(5); }
+          h->nact[kind]++;
         }
         i += isx ? 6 : 2;
       }
